@@ -693,6 +693,7 @@ Definition known1 (d : document) : bool :=
 Definition Known1 (d : document) : Prop := known1 d = true.
 
 (* ================================================================== rendering (correspondence check) *)
+Local Open Scope string_scope.
 Definition show_str (s : string) : string := hex s.
 Definition show_ostr (o : option string) : string := show_opt hex o.
 Definition show_list {A} (f : A -> string) (l : list A) : string := "[" ++ String.concat "," (map f l) ++ "]".
